@@ -336,6 +336,8 @@ HIST_ASSUME = ["setup node functions are pure (their stored value equals what a 
 for _p in ("C11", "C15", "C18"):
     REGISTRY[_p] = dict(engines=[engine_khist.run], rule=HIST_RULE, assumptions=HIST_ASSUME)
 REGISTRY["C03"]["engines"] = [engine_ksched, engine_khist.run]
+REGISTRY["C11"]["engines"] = [engine_khist.run, engine_kgraph.run]
+REGISTRY["C11"]["rule"] = HIST_RULE + " || " + GRAPH_RULE
 REGISTRY["C03"]["rule"] = SCHED_RULE + " || " + HIST_RULE
 
 from . import engine_kcompose  # noqa: E402
